@@ -818,6 +818,33 @@ def h_norm(I, a, k, st, n):
     return Opaque("np.linalg.norm of this shape / axis")
 
 
+def _cumulative(op):
+    def h(I, a, k, st, n):
+        """np.cumprod / np.cumsum along the first axis of an array whose first extent is a small constant (partial evaluation on instances)."""
+        A = _arr(a[0], st) if isinstance(a[0], LocalArr) else as_arr(a[0]) if isinstance(a[0], (Arr, ArrParam)) else None
+        if A is None or is_opaque(A): return Opaque("cumulative reduction of a non-array")
+        ax = k.get("axis", a[1] if len(a) > 1 else None)
+        axx = to_x(ax).as_int() if ax is not None and to_x(ax) is not None else None
+        if not ((A.ndim == 1 and ax is None) or axx == 0): return Opaque("cumulative reduction along this axis")
+        cnt = A.axes[0][1].as_int()
+        if cnt is None or cnt > 64: return Opaque("cumulative reduction over a symbolic extent")
+        if cnt == 0: return A
+        rows = []; acc = None
+        for i in range(cnt):
+            r = lm.arr_index(A, X.const(i)) if hasattr(lm, "arr_index") else arr_index(A, X.const(i))
+            acc = r if acc is None else (arr_op2(op, acc, r) if isinstance(acc, Arr) or isinstance(r, Arr) else lift2(op, acc, r))
+            rows.append(acc)
+        kv = fresh("k")
+        rest = list(A.axes[1:])
+        body = None
+        for i in range(cnt - 1, -1, -1):
+            b = rows[i]
+            if isinstance(b, Arr): b = subst_val(b.body, {va: X.var(vb) for (va, _), (vb, _) in zip(b.axes, rest)})
+            body = b if body is None else mk_pv(lm._cond_eq(X.var(kv), X.const(i), f"{kv}=={i}"), b, body)
+        return Arr([(kv, X.const(cnt))] + rest, body)
+    return h
+
+
 def h_squeeze(I, a, k, st, n):
     """np.squeeze drops every axis of length 1 (an axis of symbolic length is a generic one and stays)."""
     o = a[0]
@@ -962,6 +989,8 @@ _reg("numpy.pad", h_pad)
 _reg("numpy.correlate", h_correlate)
 _reg("numpy.allclose", h_allclose)
 _reg("numpy.squeeze", h_squeeze)
+_reg("numpy.cumprod", _cumulative("*"))
+_reg("numpy.cumsum", _cumulative("+"))
 _reg("numpy.linalg.norm", h_norm)
 _reg("builtins.globals", h_globals)
 _reg("numpy.take", h_take)
